@@ -11,6 +11,7 @@ Init == w = InitW(NM, NP) /\ step = 0 /\ hist = <<>>
 FocusActs == [multictl |-> {"attach", "connect", "saveload", "set_map", "feed", "attach_none"},
               gaps |-> {"attach", "attach_end", "attach_none", "connect", "saveload"},
               options |-> {"attach", "attach_none", "connect", "saveload", "set_opt", "clone_module", "failed_load"},
+              clones |-> {"attach", "connect", "clone_module", "saveload"},
               patterns |-> {"attach", "attach_end", "attach_none", "attach_pattern", "saveload", "bulk_edit", "set_note_mod", "set_note_num", "get_note_mod"}]
 Allowed(act) == IF Focus = "all" THEN act # "set_opt"       \* (option assignment needs option-bearing modules: focus "options")
                 ELSE act \in FocusActs[Focus]
@@ -36,15 +37,15 @@ Operands(P) == {<<O(m, b)>> : m \in Cand(P), b \in BOOLEAN}
                \cup (IF Lists THEN {<<O(a, FALSE), O(b, c)>> : a \in Own(P), b \in Cand(P), c \in BOOLEAN} ELSE {})
 Next ==
   \* (focus "multictl": one project, the MultiCtl as the source of every request - the same actions, fewer choices)
-  \/ \E P \in 1..2, m \in Mods : (Focus = "multictl" => P = 1 /\ ~Has(w.p.slots[1], m)) /\ (Focus \in {"gaps", "options"} => P = 1) /\ Do("attach", <<P, m>>, Lift(w, Attach(w.p, P, m)))
+  \/ \E P \in 1..2, m \in Mods : (Focus = "multictl" => P = 1 /\ ~Has(w.p.slots[1], m)) /\ (Focus \in {"gaps", "options", "clones"} => P = 1) /\ Do("attach", <<P, m>>, Lift(w, Attach(w.p, P, m)))
   \/ \E P \in 1..2, m \in Mods \ {1, 2} : (Focus = "gaps" => P = 1) /\ Do("attach_end", <<P, m>>, Lift(w, AttachEnd(w.p, P, m)))
   \/ \E P \in 1..2 : (Focus \in {"multictl", "gaps", "options"} => P = 1) /\ Do("attach_none", <<P>>, Lift(w, AttachNone(w.p, P)))
   \/ \E P \in 1..2, q \in 0..NP : Do("attach_pattern", <<P, q>>, Lift(w, AttachPattern(w.p, P, q)))
   \/ \E P \in 1..2 : \E A \in Operands(P), B \in Operands(P) :
         /\ (Focus = "multictl" => P = 1 /\ Len(A) = 1 /\ A[1].m = MC /\ \A k \in 1..Len(B) : B[k].m \in Plain)
-        /\ (Focus \in {"gaps", "options"} => P = 1 /\ Len(A) = 1 /\ Len(B) = 1)
+        /\ (Focus \in {"gaps", "options", "clones"} => P = 1 /\ Len(A) = 1 /\ Len(B) = 1)
         /\ Do("connect", <<P, A, B>>, SysConnect(w, P, A, B))
-  \/ \E P \in 1..2 : (Focus \in {"multictl", "gaps", "options"} => P = 1) /\ Do("saveload", <<P>>, SysSaveLoad(w, P))
+  \/ \E P \in 1..2 : (Focus \in {"multictl", "gaps", "options", "clones"} => P = 1) /\ Do("saveload", <<P>>, SysSaveLoad(w, P))
   \/ \E m \in Plain, v \in {-1, 0, 700, 1024, 1025} : Do("set_volume", <<m, v>>, SysSetVol(w, m, v))
   \/ \E i \in 1..MaxLinks, c \in {0, 1} : i <= 4 /\ Do("set_map", <<i, c>>, SysSetMap(w, i, c))
   \* (a mapping that names controller 1 of a module without controllers - an Output, the MultiCtl itself - is outside the domain)
